@@ -160,6 +160,9 @@ MUTANTS = [
     {"name": "delete_removes_too_much", "props": ["C15", "C01"], "file": T,
      "find": "                elif len(surviving_files) > 0:",
      "repl": "                elif len(surviving_files) > 1:"},
+    {"name": "local_exists_true_for_directories", "props": ["C20"], "file": "storage_backend.py",   # = revert of 7920bb5
+     "find": "        if stat.S_ISDIR(st.st_mode):\n            return path.endswith(\"/\") or path.endswith(os.sep)\n        return True",
+     "repl": "        return True"},
     {"name": "seq_from_snapshot_count", "props": ["C15", "C01"], "file": T,
      "find": "        sequence_number = base_metadata.last_sequence_number + 1",
      "repl": "        sequence_number = len(base_metadata.snapshots) + 1"},
@@ -169,7 +172,7 @@ REVERTS = [
     ("9ca1d8a", ["C01"]), ("336ed11", ["C04"]), ("d830242", ["C04"]), ("abb63e7", ["C02"]), ("66ad869", ["C05"]),
 ("dba0733", ["C07"]), ("0c9977b", ["C07"]), ("2a5d64e", ["C07"]), ("b46438b", ["C07"]),
     ("02d4ecb", ["C08"]), ("0ad9135", ["C09"]), ("6e33d4e", ["C10"]), ("c6108cc", ["C11"]), ("e362918", ["C11"]),
-    ("e7f960c", ["C20"]), ("b4313ab", ["C04"]), ("4f0c1c6", ["C10"]), ("1c6f396", ["C19"]), ("7920bb5", ["C20"]),
+    ("e7f960c", ["C20"]), ("b4313ab", ["C04"]), ("4f0c1c6", ["C10"]), ("1c6f396", ["C19"]), 
     ("fd90d27", ["C04"]), ("1392b8b", ["C05", "C06"]), ("eb1285e", ["C05"]), ("ed11f52", ["C14", "C07"]), ("da6a982", ["C14", "C07"]),
     ("fc4462d", ["C15"]), ("38d48b4", ["C14"]), ("c16fd62", ["C04"]), ("0034e06", ["C04"]), ("470f494", ["C08"]),
 ]
